@@ -52,9 +52,52 @@ fn clauses(s: &mut Session, sp: &str, a: &Color, b: &Color, fr: f64, both_8bit: 
             || format!("result {:?} operands {:?} {:?}", rm, ra, rb),
         );
     }
+    // hue spaces: the hue travels along the shorter arc (independent reconstruction from the
+    // operands' own coordinates; applied when both operands are clearly chromatic and the hues
+    // are not antipodal, where "shorter" is undefined)
+    if let Some(want) = shorter_arc_expectation(sp, a, b, f) {
+        s.check(chan_diff(&m, &want) <= 1, "hue-shorter-arc", &site, inp, || format!("got {} ; interpolation along the shorter hue arc gives {}", show_color(&m), show_color(&want)));
+    }
     // swap symmetry: mix(a,b,f) vs mix(b,a,1-f) within one 8-bit step
     let sw = ops::mix_impl(sp, b, a, 1.0 - f);
     s.check(chan_diff(&m, &sw) <= 1 && (sw.to_rgba().alpha - rm.alpha).abs() <= 1e-12, "swap-symmetry", &site, inp, || format!("mix(a,b,f) = {} but mix(b,a,1-f) = {}", show_color(&m), show_color(&sw)));
+}
+
+fn arc_hue(h1: f64, h2: f64, f: f64) -> Option<f64> {
+    // signed shorter difference in [-180, 180)
+    let d = ((h2 - h1) % 360.0 + 540.0) % 360.0 - 180.0;
+    if (d.abs() - 180.0).abs() < 1e-6 {
+        return None;
+    }
+    Some(h1 + f * d)
+}
+
+fn shorter_arc_expectation(sp: &str, a: &Color, b: &Color, f: f64) -> Option<Color> {
+    let li = |x: f64, y: f64| x + f * (y - x);
+    match sp {
+        "hsl" => {
+            let (x, y) = (a.to_hsla(), b.to_hsla());
+            if x.s < 0.01 || y.s < 0.01 {
+                return None;
+            }
+            Some(Color::from_hsla(arc_hue(x.h, y.h, f)?, li(x.s, y.s), li(x.l, y.l), li(x.alpha, y.alpha)))
+        }
+        "hsv" => {
+            let (x, y) = (a.to_hsva(), b.to_hsva());
+            if x.s < 0.01 || y.s < 0.01 {
+                return None;
+            }
+            Some(Color::from_hsva(arc_hue(x.h, y.h, f)?, li(x.s, y.s), li(x.v, y.v), li(x.alpha, y.alpha)))
+        }
+        "lch" => {
+            let (x, y) = (a.to_lch(), b.to_lch());
+            if x.c < 1.0 || y.c < 1.0 {
+                return None;
+            }
+            Some(Color::from_lch(li(x.l, y.l), li(x.c, y.c), arc_hue(x.h, y.h, f)?, li(x.alpha, y.alpha)))
+        }
+        _ => None,
+    }
 }
 
 pub fn run(s: &mut Session, ctx: &Ctx) {
@@ -88,7 +131,7 @@ pub fn run(s: &mut Session, ctx: &Ctx) {
             1 => {
                 // antipodal-ish hue partner
                 let h = a.to_hsla();
-                let d = *rng.pick(&[179.9, 180.0, 180.1]);
+                let d = *rng.pick(&[179.9, 180.0, 180.1, 179.6, 180.4, 180.6, 179.4, 181.0, 179.0]);
                 let c = Color::from_hsla(h.h + d, h.s, h.l, h.alpha);
                 let r = c.to_rgba();
                 Color::from_rgba(r.r, r.g, r.b, r.alpha)
